@@ -25,7 +25,7 @@ def fbits(fs):
 
 
 # ---------------------------------------------------------------------------------------------
-def _history(rnd2, dec, stats, mk_iface, mmap, top, ghosts=None, mk_map=None, **kw):
+def _history(rnd2, dec, stats, mk_iface, mmap, top, ghosts=None, mk_map=None, mk_big=None, fails=None, prop="C06", **kw):
     """legal but unusual histories before the next `add`: the decoder has already been elaborated
     (elaboration must leave it as it was), or an `add` of ANOTHER interface object carrying the same
     memory map has just been refused for its address (a refused call must leave nothing behind)"""
@@ -40,6 +40,22 @@ def _history(rnd2, dec, stats, mk_iface, mmap, top, ghosts=None, mk_map=None, **
             dec.add(old, name="refused", addr=top, **kw)       # outside the address space: refused by the memory map
         except ValueError:
             stats["refused_then_other_interface"] += 1
+    if mk_big is not None and fails is not None and rnd2.random() < .12:
+        # an add() WITHOUT an address that is refused because the subordinate is as large as the whole address space (it does not
+        # fit once anything is there, or collides with itself when tried twice): the next implicit placement is where it was
+        big = mk_big()
+        mm_ = dec.bus.memory_map
+        for attempt in range(2):
+            cur0 = mm_.align_to(0)
+            n0 = len(list(mm_.windows()))
+            try:
+                dec.add(big, name=f"big{attempt}", **kw)
+                break                                  # it fitted (empty decoder): the second attempt is then refused as a duplicate
+            except ValueError:
+                stats["refused_implicit_adds"] = stats.get("refused_implicit_adds", 0) + 1
+                if mm_.align_to(0) != cur0 or len(list(mm_.windows())) != n0:
+                    fails.append((prop, f"an add() without address that was refused moved the decoder's next implicit placement from {cur0} to "
+                                        f"{mm_.align_to(0)} (or changed its windows)", 0))
     if ghosts is not None and rnd2.random() < .10:
         # an interface with a memory map of its own whose add() is refused is no subordinate of this
         # decoder: whatever it drives later must not show anywhere
@@ -78,6 +94,7 @@ def run_csr(case):
     al = rnd.choice([0, 0, 1, 2, 3])
     dec = csr.Decoder(addr_width=aw, data_width=dw, alignment=al)
     subs, ghosts = [], []
+    hist_fails = []
     stats = {"subs": 0, "explicit": 0, "padded": 0, "unassigned_vectors": 0, "vectors": 0, "refused_adds": 0,
              "elaborated_before_add": 0, "refused_then_other_interface": 0}
     if us.random() < .12:
@@ -99,8 +116,12 @@ def run_csr(case):
         saw = rnd.randint(1, aw) if not extra_subs else rnd.randint(1, max(1, aw - 3))
         sb = csr.Interface(addr_width=saw, data_width=dw, path=(f"sub{i}",))
         sb.memory_map = MemoryMap(addr_width=saw, data_width=dw)
+        def mk_big_():
+            b_ = csr.Interface(addr_width=aw, data_width=dw, path=(f"big{i}",))
+            b_.memory_map = MemoryMap(addr_width=aw, data_width=dw)
+            return b_
         _history(rnd2, dec, stats, lambda: csr.Interface(addr_width=saw, data_width=dw, path=(f"old{i}",)), sb.memory_map, 1 << aw,
-                 ghosts=ghosts, mk_map=lambda: MemoryMap(addr_width=saw, data_width=dw))
+                 ghosts=ghosts, mk_map=lambda: MemoryMap(addr_width=saw, data_width=dw), mk_big=mk_big_, fails=hist_fails, prop="C06")
         try:
             how = rnd.random()
             if align_pair:
@@ -136,7 +157,7 @@ def run_csr(case):
             stats["padded"] += 1
     sim = simutil.simulator(simutil.wrap(dec), case, stats)
     sim.add_clock(1e-6)
-    obs, fails = [], list(pre_fails)
+    obs, fails = [], list(pre_fails) + list(hist_fails)
     sweep = aw <= 6
 
     async def tb(ctx):
@@ -205,6 +226,7 @@ def run_wb(case):
                 "mixed": tuple(wishbone.Feature(f) if k % 2 else f for k, f in enumerate(sorted(fs)))}[how]
     dec = wishbone.Decoder(addr_width=aw, data_width=dw, granularity=gran, features=spelled(feats), alignment=al)
     subs, ghosts = [], []
+    hist_fails = []
     stats = {"subs": 0, "sparse": 0, "explicit": 0, "vectors": 0, "nobody_selected": 0, "responses": 0, "feature_mismatch": 0,
              "elaborated_before_add": 0, "refused_then_other_interface": 0}
     maw_dec = max(1, aw + gb)
@@ -234,8 +256,13 @@ def run_wb(case):
         if maw > maw_dec:
             continue
         sb.memory_map = MemoryMap(addr_width=maw, data_width=sg)
+        def mk_big_():
+            b_ = wishbone.Interface(addr_width=aw, data_width=dw, granularity=gran, features=set(), path=(f"big{i}",))
+            b_.memory_map = MemoryMap(addr_width=maw_dec, data_width=gran)
+            return b_
         _history(rnd2, dec, stats, lambda: wishbone.Interface(addr_width=saw, data_width=sdw, granularity=sg, features=sf, path=(f"old{i}",)),
-                 sb.memory_map, 1 << maw_dec, ghosts=ghosts, mk_map=lambda: MemoryMap(addr_width=maw, data_width=sg), sparse=sparse)
+                 sb.memory_map, 1 << maw_dec, ghosts=ghosts, mk_map=lambda: MemoryMap(addr_width=maw, data_width=sg),
+                 mk_big=(mk_big_ if not sparse else None), fails=hist_fails, prop="C07", sparse=sparse)
         try:
             if rnd.random() < .6:
                 dec.add(how_given(sb), sparse=sparse, name=None if rnd.random() < .5 else f"s{i}")
@@ -259,8 +286,12 @@ def run_wb(case):
             stats["sparse"] += int(sparse)
             if sf - feats or ({"lock", "cti", "bte"} & feats) - sf:
                 stats["feature_mismatch"] += 1
-        except ValueError:
-            pass
+        except ValueError as ex_:
+            # refused for its place (no room, a name) is fine; refused for its FEATURES is not: the generator only draws feature
+            # sets a decoder can serve (a subordinate may lack or exceed lock/cti/bte; it never has err/rty/stall the decoder lacks)
+            if any(w_ in str(ex_).lower() for w_ in ("optional", "feature", "err", "rty", "stall", "lock", "cti", "bte")) and "address" not in str(ex_).lower():
+                hist_fails.append(("C07", f"add() of a subordinate with features {sorted(sf)} (decoder: {sorted(feats)}"
+                                          f"{', handed over as a flipped view' if False else ''}) is refused: {str(ex_)[:120]}", 0))
     wins = {id(w): (s, e) for w, n, (s, e, r) in dec.bus.memory_map.windows()}
     pre_fails = []
     lost = [t for t in subs if id(t[0].memory_map) not in wins]
@@ -275,7 +306,7 @@ def run_wb(case):
         lines.append(f"sub {wins[id(sb.memory_map)][0]} {maw} {len(sb.adr)} {sb.data_width} {len(sb.sel)} {fbits(sf)}")
     sim = simutil.simulator(simutil.wrap(dec), case, stats)
     sim.add_clock(1e-6)
-    obs, fails = [], list(pre_fails)
+    obs, fails = [], list(pre_fails) + list(hist_fails)
     bus = dec.bus
     selw = dw // gran
 
